@@ -21,6 +21,11 @@ pub enum Op {
 	Block { node: usize, id: usize },
 	/// byzantine input: delivered to `node` only (never to its twin)
 	Bad { node: usize, bad: usize },
+	/// header of a bad block through process_block_header
+	BadHeader { node: usize, bad: usize },
+	/// header batch through sync_block_headers: honest `ids` (a parent-linked chain ending at the
+	/// bad block's parent) followed by the bad block's header
+	BadBatch { node: usize, ids: Vec<usize>, bad: usize },
 	Restart { node: usize },
 	Compact { node: usize },
 	Validate { node: usize, fast: bool },
@@ -35,6 +40,8 @@ impl Op {
 			| Op::HeaderBatch { node, .. }
 			| Op::Block { node, .. }
 			| Op::Bad { node, .. }
+			| Op::BadHeader { node, .. }
+			| Op::BadBatch { node, .. }
 			| Op::Restart { node }
 			| Op::Compact { node }
 			| Op::Validate { node, .. }
@@ -109,7 +116,8 @@ pub struct ChainSim<'w> {
 	pub probes: BTreeMap<String, u64>,
 	pub states: BTreeSet<u64>,
 	/// a valid header attached to an invalid block was delivered: header_head may differ from the twin's
-	pub allow_hh_div: bool,
+	pub allow_hh_div: Vec<bool>,
+	last_sums_head: Vec<Option<grin_core::core::hash::Hash>>,
 	last_events: Vec<String>,
 }
 
@@ -154,7 +162,8 @@ impl<'w> ChainSim<'w> {
 			faults: BTreeMap::new(),
 			probes: BTreeMap::new(),
 			states: BTreeSet::new(),
-			allow_hh_div: false,
+			allow_hh_div: vec![false; total],
+			last_sums_head: vec![None; total],
 			last_events: vec![],
 		}
 	}
@@ -300,7 +309,7 @@ impl<'w> ChainSim<'w> {
 				));
 			}
 			let want_hh = self.world.blocks[m.header_head].hash;
-			if d.header_head != want_hh {
+			if d.header_head != want_hh && !self.allow_hh_div[n] {
 				return Err(self.viol(
 					"header-head-mismatch",
 					format!(
@@ -312,6 +321,12 @@ impl<'w> ChainSim<'w> {
 		}
 		if self.oracles.utxo {
 			self.check_utxo(n, &d)?;
+		}
+		if self.oracles.sums {
+			self.check_sums(n, &d)?;
+		}
+		if self.oracles.bitmap {
+			self.check_bitmap(n, &d)?;
 		}
 		Ok(d)
 	}
@@ -369,6 +384,136 @@ impl<'w> ChainSim<'w> {
 				}
 			}
 			Err(e) => return Err(self.viol("enumerate-error", format!("node {}: {:?}", n, e))),
+		}
+		Ok(())
+	}
+
+
+	/// C01: stored running sums equal sums recomputed from the full state; amount-level conservation.
+	fn check_sums(&mut self, n: usize, d: &StateDigest) -> Result<(), Violation> {
+		if Some(d.head) == self.last_sums_head[n] {
+			return Ok(());
+		}
+		self.last_sums_head[n] = Some(d.head);
+		let head_id = match self.world.id_of_hash(&d.head) {
+			Some(i) => i,
+			None => return Err(self.viol("head-unknown", format!("node {} head {} is not a world block", n, d.head))),
+		};
+		if head_id == 0 {
+			return Ok(());
+		}
+		let c = self.nodes[n].chain();
+		let header = self.world.blocks[head_id].block.header.clone();
+		let genesis = self.world.genesis.header.clone();
+		let stored = match c.get_block_sums(&d.head) {
+			Ok(s) => s,
+			Err(e) => return Err(self.viol("block-sums-missing", format!("node {} has no block sums for its head #{}: {:?}", n, head_id, e))),
+		};
+		let recomputed = {
+			let hp = c.header_pmmr();
+			let th = c.txhashset();
+			let mut hp = hp.write();
+			let mut th = th.write();
+			grin_chain::txhashset::extending_readonly(&mut hp, &mut th, |ext, _batch| {
+				ext.extension.validate_kernel_sums(&genesis, &header)
+			})
+		};
+		match recomputed {
+			Ok((utxo_sum, kernel_sum)) => {
+				if utxo_sum != stored.utxo_sum || kernel_sum != stored.kernel_sum {
+					return Err(self.viol(
+						"stored-sums-differ",
+						format!("node {} head #{}: stored block sums differ from sums recomputed over the full state", n, head_id),
+					));
+				}
+			}
+			Err(e) => {
+				return Err(self.viol(
+					"full-state-equation-fails",
+					format!("node {} head #{}: full-state kernel sum equation fails: {:?}", n, head_id, e),
+				))
+			}
+		}
+		if let Err(e) = c.validate(true) {
+			return Err(self.viol("validate-fast-failed", format!("node {} head #{}: Chain::validate(true) failed: {:?}", n, head_id, e)));
+		}
+		// amount level: what the wallet knows about the values of the outputs the node reports unspent
+		let view = match self.nodes[n].unspent_view(&self.commits) {
+			Ok(v) => v,
+			Err(e) => return Err(self.viol("get-unspent-error", format!("node {}: {:?}", n, e))),
+		};
+		let mut total: u128 = 0;
+		for k in view.keys() {
+			if let Some(i) = self.world.wallet.known.get(k) {
+				total += i.value as u128;
+			}
+		}
+		let want = grin_core::consensus::REWARD as u128 * (header.height as u128 + 1);
+		if total != want {
+			return Err(self.viol(
+				"supply-mismatch",
+				format!("node {} head #{} (h{}): unspent outputs are worth {} but the height-determined supply is {}", n, head_id, header.height, total, want),
+			));
+		}
+		Ok(())
+	}
+
+	/// C15: committed bitmap root equals the root of an accumulator built from scratch over the
+	/// unspent set the node reports.
+	fn check_bitmap(&mut self, n: usize, d: &StateDigest) -> Result<(), Violation> {
+		let view = match self.nodes[n].unspent_view(&self.commits) {
+			Ok(v) => v,
+			Err(e) => return Err(self.viol("get-unspent-error", format!("node {}: {:?}", n, e))),
+		};
+		let mut idx: Vec<u64> = view
+			.values()
+			.map(|(pos, _)| grin_core::core::pmmr::n_leaves(*pos).saturating_sub(1))
+			.collect();
+		idx.sort_unstable();
+		let size = grin_core::core::pmmr::n_leaves(d.sizes.0);
+		let mut acc = grin_chain::txhashset::BitmapAccumulator::new();
+		if let Err(e) = acc.init(idx.clone(), size) {
+			return Err(self.viol("bitmap-init-error", format!("{:?}", e)));
+		}
+		let want = acc.root();
+		if want != d.bitmap_root {
+			return Err(self.viol(
+				"bitmap-root-path-dependent",
+				format!("node {} at head {}@{}: committed bitmap root {} differs from the from-scratch root {} over {} unspent leaves of {}", n, d.head, d.head_height, d.bitmap_root, want, idx.len(), size),
+			));
+		}
+		// independent implementation (no BitmapAccumulator code): chunk bytes + MMR bagging
+		let indep = crate::refmodel::bitmap_root(&idx, size);
+		if indep != d.bitmap_root {
+			return Err(self.viol(
+				"bitmap-root-vs-independent",
+				format!("node {} at head {}@{}: committed bitmap root {} differs from the independently computed root {}", n, d.head, d.head_height, d.bitmap_root, indep),
+			));
+		}
+		Ok(())
+	}
+
+
+	/// Common post-conditions of a byzantine delivery.
+	fn after_bad(&mut self, n: usize, hash: grin_core::core::hash::Hash, header_bad: bool, kind: &str) -> Result<(), Violation> {
+		let stored = self.nodes[n].chain().get_block_header(&hash).is_ok();
+		if header_bad {
+			if stored && (self.oracles.reject_bad || self.oracles.twin) {
+				return Err(self.viol(
+					&format!("bad-header-remembered:{}", kind),
+					format!("node {} stored a header that is itself invalid ({})", n, kind),
+				));
+			}
+		} else if stored {
+			// a valid header of an invalid block may be remembered and may move header_head
+			self.allow_hh_div[n] = true;
+			self.probe("valid_header_of_bad_block_remembered");
+		}
+		if self.nodes[n].chain().block_exists(hash).unwrap_or(false) && (self.oracles.reject_bad || self.oracles.twin) {
+			return Err(self.viol(
+				&format!("bad-block-stored:{}", kind),
+				format!("node {} stored the body of an invalid block ({})", n, kind),
+			));
 		}
 		Ok(())
 	}
@@ -524,7 +669,74 @@ impl<'w> ChainSim<'w> {
 					));
 				}
 				*self.faults.entry(format!("bad:{}", bb.kind)).or_insert(0) += 1;
-				Ok(format!("bad[{}]:{}", bb.kind, cls))
+				let kind = bb.kind.clone();
+				let (hash, header_bad) = (bb.hash, bb.header_bad);
+				self.after_bad(n, hash, header_bad, &kind)?;
+				Ok(format!("bad[{}]:{}", kind, cls))
+			}
+			Op::BadHeader { bad, .. } => {
+				let bb = &self.world.bad[*bad];
+				let res = self.nodes[n].chain().process_block_header(&bb.block.header, opts);
+				let cls = match &res {
+					Ok(_) => "ACCEPTED".to_string(),
+					Err(e) => err_class(e),
+				};
+				let kind = bb.kind.clone();
+				let (hash, header_bad) = (bb.hash, bb.header_bad);
+				if self.oracles.reject_bad && header_bad && res.is_ok() {
+					return Err(self.viol(
+						&format!("bad-header-accepted:{}", kind),
+						format!("node {} accepted an invalid header ({}) on parent #{} through process_block_header", n, kind, self.world.bad[*bad].parent),
+					));
+				}
+				*self.faults.entry(format!("badhdr:{}", kind)).or_insert(0) += 1;
+				self.after_bad(n, hash, header_bad, &kind)?;
+				Ok(format!("badhdr[{}]:{}", kind, cls))
+			}
+			Op::BadBatch { ids, bad, .. } => {
+				let bb = &self.world.bad[*bad];
+				let mut hs: Vec<BlockHeader> = ids.iter().map(|i| self.world.blocks[*i].block.header.clone()).collect();
+				hs.push(bb.block.header.clone());
+				let sync_head = match self.nodes[n].chain().header_head() {
+					Ok(t) => t,
+					Err(e) => return Err(self.viol("header-head-error", format!("{:?}", e))),
+				};
+				let res = self.nodes[n].chain().sync_block_headers(&hs, sync_head, opts);
+				let cls = match &res {
+					Ok(_) => "ACCEPTED".to_string(),
+					Err(e) => err_class(e),
+				};
+				let kind = bb.kind.clone();
+				let (hash, header_bad) = (bb.hash, bb.header_bad);
+				if self.oracles.reject_bad && header_bad && res.is_ok() {
+					return Err(self.viol(
+						&format!("bad-header-batch-accepted:{}", kind),
+						format!("node {} accepted a header batch whose last header is invalid ({})", n, kind),
+					));
+				}
+				if res.is_ok() {
+					// (only reachable for valid headers of invalid blocks) the honest prefix is now known
+					let m = &mut self.models[n];
+					for i in ids {
+						m.headers.insert(*i);
+					}
+				} else if self.oracles.reject_bad || self.oracles.twin {
+					// the whole batch must have been rolled back: no new header of it is stored
+					for i in ids {
+						if !self.models[n].headers.contains(i) {
+							let h = self.world.blocks[*i].hash;
+							if self.nodes[n].chain().get_block_header(&h).is_ok() {
+								return Err(self.viol(
+									&format!("failed-batch-left-headers:{}", kind),
+									format!("node {} kept header #{} of a header batch that failed ({})", n, i, kind),
+								));
+							}
+						}
+					}
+				}
+				*self.faults.entry(format!("badbatch:{}", kind)).or_insert(0) += 1;
+				self.after_bad(n, hash, header_bad, &kind)?;
+				Ok(format!("badbatch[{}]:{}", kind, cls))
 			}
 			Op::Restart { .. } => {
 				let before = self.nodes[n].digest().ok();
@@ -601,7 +813,8 @@ impl<'w> ChainSim<'w> {
 			return Ok(());
 		}
 		let pre = if self.oracles.twin { self.nodes[n].digest().ok() } else { None };
-		let pre_view = if self.oracles.twin && matches!(op, Op::Bad { .. }) {
+		let is_bad = matches!(op, Op::Bad { .. } | Op::BadHeader { .. } | Op::BadBatch { .. });
+		let pre_view = if self.oracles.twin && is_bad {
 			self.nodes[n].unspent_view(&self.commits).ok()
 		} else {
 			None
@@ -611,7 +824,11 @@ impl<'w> ChainSim<'w> {
 		self.logline(op, &r, &d);
 		if self.twin {
 			let t = n + self.n_nodes;
-			if let Op::Bad { bad, .. } = op {
+			if is_bad {
+				let bad = match op {
+					Op::Bad { bad, .. } | Op::BadHeader { bad, .. } | Op::BadBatch { bad, .. } => bad,
+					_ => unreachable!(),
+				};
 				// C06: the failed call left the best-chain state untouched
 				if self.oracles.twin {
 					let bb = &self.world.bad[*bad];
@@ -627,6 +844,16 @@ impl<'w> ChainSim<'w> {
 							format!("node {} state changed by a rejected input ({}): {} -> {}", n, bb.kind, pre.short(), d.short()),
 						));
 					}
+					if r.contains("ACCEPTED") {
+						if let Op::BadBatch { ids, .. } = op {
+							// the batch carried a valid header of an invalid block and was accepted as
+							// headers: let the twin learn the honest prefix too
+							if !ids.is_empty() {
+								let sub = Op::HeaderBatch { node: t, ids: ids.clone() };
+								self.exec_on(t, &sub)?;
+							}
+						}
+					}
 					let post_view = self.nodes[n].unspent_view(&self.commits).ok();
 					if pre_view != post_view {
 						return Err(self.viol(
@@ -640,9 +867,8 @@ impl<'w> ChainSim<'w> {
 				let r2 = self.exec_on(t, op)?;
 				let d2 = self.check_node(t)?;
 				if self.oracles.twin {
-					let hh_ok = d.header_head == d2.header_head
-						|| self.twin_header_divergence_allowed(n);
-					if r != r2 || !d.same_body(&d2) || !hh_ok {
+					let hh_ok = d.header_head == d2.header_head || self.allow_hh_div[n];
+					if r.replace('R', "N") != r2.replace('R', "N") || !d.same_body(&d2) || !hh_ok {
 						return Err(self.viol(
 							"twin-divergence",
 							format!(
@@ -657,12 +883,6 @@ impl<'w> ChainSim<'w> {
 		Ok(())
 	}
 
-	/// Did node n legitimately remember a valid header of an invalid block?
-	fn twin_header_divergence_allowed(&self, _n: usize) -> bool {
-		// bad blocks with header_bad == false carry a valid header which may be remembered and
-		// may even become header_head. Tracked per run by the caller through `allow_hh_div`.
-		self.allow_hh_div
-	}
 }
 
 /// Execute a whole op list on fresh nodes; returns the outcome (first violation stops the run).
@@ -900,6 +1120,7 @@ pub fn gen_schedule(world: &World, cfg: &SchedCfg, rng: &mut SimRng) -> (Vec<Op>
 			}
 		}
 		let mut seq: Vec<Op> = vec![];
+		let mut bad_done: BTreeSet<usize> = BTreeSet::new();
 		for id in &bodies {
 			seq.push(Op::Block { node, id: *id });
 			if rng.chance(cfg.dup_pct, 100) {
@@ -909,6 +1130,14 @@ pub fn gen_schedule(world: &World, cfg: &SchedCfg, rng: &mut SimRng) -> (Vec<Op>
 					seq.push(Op::Block { node, id: did });
 				}
 			}
+			if cfg.bad_pct > 0 {
+				for (bi, bb) in world.bad.iter().enumerate() {
+					if bb.parent == *id && rng.chance(cfg.bad_pct, 100) {
+						seq.push(bad_op(world, node, bi, rng));
+						bad_done.insert(bi);
+					}
+				}
+			}
 			if rng.chance(cfg.restart_pct, 100) {
 				seq.push(Op::Restart { node });
 			}
@@ -916,9 +1145,53 @@ pub fn gen_schedule(world: &World, cfg: &SchedCfg, rng: &mut SimRng) -> (Vec<Op>
 				seq.push(Op::Validate { node, fast: rng.chance(2, 3) });
 			}
 		}
+		if cfg.bad_pct > 0 && !world.bad.is_empty() {
+			// everything is in place after a sweep: deliver every byzantine input (again)
+			seq.push(Op::Sweep { node });
+			let mut order: Vec<usize> = (0..world.bad.len()).collect();
+			rng.shuffle(&mut order);
+			for bi in order {
+				if bad_done.contains(&bi) && rng.chance(1, 2) {
+					continue;
+				}
+				seq.push(bad_op(world, node, bi, rng));
+				if rng.chance(cfg.restart_pct, 100) {
+					seq.push(Op::Restart { node });
+				}
+			}
+			// and some honest traffic afterwards, so that residue of a failed call would show
+			for _ in 0..3 {
+				let id = 1 + rng.usize_below(world.blocks.len() - 1);
+				seq.push(Op::Block { node, id });
+			}
+		}
 		ops.extend(seq);
 	}
 	(ops, reorders)
+}
+
+/// One way of delivering byzantine block `bi`: full block, header alone, or at the end of a header batch.
+fn bad_op(world: &World, node: usize, bi: usize, rng: &mut SimRng) -> Op {
+	let bb = &world.bad[bi];
+	match rng.below(if bb.header_bad { 4 } else { 6 }) {
+		0 | 4 | 5 => Op::Bad { node, bad: bi },
+		1 => Op::BadHeader { node, bad: bi },
+		2 => {
+			let mut ids = vec![];
+			let mut cur = bb.parent;
+			let n = rng.range(0, 3);
+			for _ in 0..n {
+				if cur == 0 {
+					break;
+				}
+				ids.push(cur);
+				cur = world.blocks[cur].parent.unwrap_or(0);
+			}
+			ids.reverse();
+			Op::BadBatch { node, ids, bad: bi }
+		}
+		_ => Op::Bad { node, bad: bi },
+	}
 }
 
 pub fn ops_to_json(ops: &[Op]) -> Value {
